@@ -837,6 +837,11 @@ func c15Handler(c *Ctx, rd, re, rf string) {
 }
 
 func c15Cache(c *Ctx, rf string) {
+	keyCacheRule(c, rf)
+}
+
+// keyCacheRule is shared by C15 (R15f) and C07 (R07f).
+func keyCacheRule(c *Ctx, rf string) {
 	p := c.P
 	gk := p.Func("token/tokencache.(*Cache).GetKey")
 	if gk == nil {
@@ -877,28 +882,138 @@ func c15Cache(c *Ctx, rf string) {
 		return len(a) == 2 && ((wantID(a[0]) && isHave(a[1])) || (wantID(a[1]) && isHave(a[0])))
 	})
 	either := Guard{Name: "no pinned id or ids equal", Match: func(f Fact) bool { return noPin.Match(f) || same.Match(f) }}
-	isCached := func(v ssa.Value) bool {
-		return dependsOn(v, func(x ssa.Value) bool {
-			if l, ok := x.(*ssa.Lookup); ok {
-				return p.memKey(l.X) == "f:token/tokencache.Cache.keys"
+	// origin of a returned key: "fresh" = result of the inner Token.GetKey made by this
+	// very call; "shared" = anything read from state reachable from the receiver (the
+	// cache map, an in-flight table, …). Shared keys need the pinned-id guard.
+	recv := gk.Params[0]
+	rootedAtRecv := func(v ssa.Value) bool {
+		for i := 0; i < 20 && v != nil; i++ {
+			switch x := v.(type) {
+			case *ssa.Parameter:
+				return x == recv
+			case *ssa.FieldAddr:
+				v = x.X
+			case *ssa.Field:
+				v = x.X
+			case *ssa.IndexAddr:
+				v = x.X
+			case *ssa.Lookup:
+				v = x.X
+			case *ssa.UnOp:
+				v = x.X
+			case *ssa.Extract:
+				v = x.Tuple
+			case *ssa.Phi:
+				for _, e := range x.Edges {
+					if dependsOn(e, func(y ssa.Value) bool { return y == recv }) {
+						return true
+					}
+				}
+				return false
+			default:
+				return false
 			}
-			return false
-		})
+		}
+		return false
+	}
+	origin := func(v ssa.Value) (fresh, shared bool) {
+		seen := map[ssa.Value]bool{}
+		var walk func(v ssa.Value, d int)
+		walk = func(v ssa.Value, d int) {
+			if v == nil || seen[v] || d > 40 {
+				return
+			}
+			seen[v] = true
+			if call, _ := resultOf(v); call != nil {
+				switch p.calleeName(call.Common()) {
+				case "(token.Token).GetKey":
+					fresh = true
+					return
+				}
+			}
+			switch x := v.(type) {
+			case *ssa.Lookup:
+				if rootedAtRecv(x.X) {
+					shared = true
+					return
+				}
+			case *ssa.UnOp:
+				if x.Op == token.MUL {
+					if _, isAlloc := x.X.(*ssa.Alloc); !isAlloc && rootedAtRecv(x.X) {
+						// load through a pointer obtained from receiver state
+						if fa, ok := x.X.(*ssa.FieldAddr); ok {
+							if _, f, _ := p.fieldAddr(fa); f == "Token" {
+								return
+							}
+						}
+						shared = true
+						return
+					}
+				}
+			case *ssa.Alloc:
+				// local object: follow what was stored into it
+				var addrs = []ssa.Value{x}
+				for i := 0; i < len(addrs) && i < 32; i++ {
+					refs := addrs[i].Referrers()
+					if refs == nil {
+						continue
+					}
+					for _, r := range *refs {
+						switch r := r.(type) {
+						case *ssa.Store:
+							if r.Addr == addrs[i] {
+								walk(r.Val, d+1)
+							}
+						case *ssa.FieldAddr:
+							if r.X == addrs[i] {
+								addrs = append(addrs, r)
+							}
+						}
+					}
+				}
+				return
+			}
+			if in, ok := v.(ssa.Instruction); ok {
+				for _, op := range in.Operands(nil) {
+					if op != nil && *op != nil {
+						walk(*op, d+1)
+					}
+				}
+			}
+		}
+		walk(v, 0)
+		return
 	}
 	n := 0
+	nFresh := 0
 	for _, r := range returnsOf(gk) {
 		v := retVal(r, 0)
-		if isNilConst(v) || !isCached(v) {
+		if isNilConst(v) {
+			continue
+		}
+		fresh, shared := origin(v)
+		if fresh && !shared {
+			nFresh++
+			continue
+		}
+		if !fresh && !shared {
+			c.Undecided(rf, fmt.Sprintf("%s return origin", fname), p.Pos(r.Pos()), "cannot tell where the returned key comes from")
 			continue
 		}
 		n++
 		missing, path := p.unguardedFromEntry(gk, r, either)
-		c.Check(len(missing) == 0, rf, fmt.Sprintf("%s cached-return#%d", fname, n), p.Pos(r.Pos()), "cached key returned only if no id pinned or ids equal", "a cached key can be returned to a request that pinned a different key id", path...)
-		// and only if not expired
-		exp := p.callGuard("expires.After(now)==true", []string{"(time.Time).After"}, -1, IsTrue, nil)
-		missing, path = p.unguardedFromEntry(gk, r, exp)
-		c.Check(len(missing) == 0, rf, fmt.Sprintf("%s cached-return#%d fresh", fname, n), p.Pos(r.Pos()), "cached key returned only before expiry", "an expired cached key can be returned", path...)
+		c.Check(len(missing) == 0, rf, fmt.Sprintf("%s cached-return#%d", fname, n), p.Pos(r.Pos()), "a key taken from shared cache state is returned only if no id is pinned or the ids are equal", "a key that was not fetched by this very call (cache / in-flight table) can be returned to a request that pinned a different key id", path...)
+		// and only if not expired (for entries of the expiring map)
+		if dependsOn(v, func(x ssa.Value) bool {
+			l, ok := x.(*ssa.Lookup)
+			return ok && p.memKey(l.X) == "f:token/tokencache.Cache.keys"
+		}) {
+			exp := p.callGuard("expires.After(now)==true", []string{"(time.Time).After"}, -1, IsTrue, nil)
+			missing, path = p.unguardedFromEntry(gk, r, exp)
+			c.Check(len(missing) == 0, rf, fmt.Sprintf("%s cached-return#%d fresh", fname, n), p.Pos(r.Pos()), "cached key returned only before expiry", "an expired cached key can be returned", path...)
+		}
 	}
+	c.Check(nFresh > 0, rf, fname+" fetch-return found", p.Pos(gk.Pos()), "a miss returns the key fetched by this call", "no return of a freshly fetched key found")
 	c.Check(n > 0, rf, fname+" cached-return found", p.Pos(gk.Pos()), "", "no return of a cached key found")
 	// store into the cache only when no id pinned
 	held := p.heldLocks(gk)
